@@ -259,6 +259,47 @@ Definition fuel_for (s : cl) : nat := (8 + 3 * length (q s) + Z.to_nat (reqC s) 
 Definition qstep (l : lab) (s : cl) : cl := let s1 := step l s in quiesce (fuel_for s1) s1.
 Definition qrun (ls : list lab) (s : cl) : cl := fold_left (fun s l => qstep l s) ls s.
 
+(* ---- the schedule class S0 (single token, handler atomic) ---- *)
+
+Definition tokz (s : cl) : Z := if tok s then 1 else 0.
+Definition T (s : cl) : Z := reqC s + readyC s + tokz s.
+
+Definition is_ext (l : lab) : bool :=
+  match l with PumpStop | PumpReq | PumpReady | PumpTimer | Deliver | DeliverStop => false | _ => true end.
+
+(** [ok_at l s]: label [l] may be scheduled in state [s] in the class S0: at most one wake-up
+    token is pending for the pump; an external event (API call, frame, connection callback,
+    timer expiry) happens only when Stop has run to its end and the callback goroutine is idle;
+    the callback goroutine notices stopC after the pump noticed the closed channel. *)
+Definition ok_at (l : lab) (s : cl) : bool :=
+  (T s <=? 1) &&
+  (if is_ext l then negb (closing s) && negb (stopSig s) && (match concC s with [] => true | _ => false end)
+   else match l with DeliverStop => negb (closing s) | _ => true end).
+
+Fixpoint run_ok (ls : list lab) (s : cl) : bool :=
+  match ls with
+  | [] => T s <=? 1
+  | l :: r => ok_at l s && run_ok r (step l s)
+  end.
+
+
+(** the labels (external and internal) that the quiescent semantics executes *)
+Fixpoint quiesce_labs (fuel : nat) (s : cl) : list lab :=
+  match fuel with
+  | O => []
+  | S f => match first_enabled s with
+           | Some l => l :: quiesce_labs f (step l s)
+           | None => []
+           end
+  end.
+
+Fixpoint expand (ls : list lab) (s : cl) : list lab :=
+  match ls with
+  | [] => []
+  | l :: r => let s1 := step l s in
+              (l :: quiesce_labs (fuel_for s1) s1) ++ expand r (qstep l s)
+  end.
+
 (* ---- observables ---- *)
 Definition enc_ev (e : ev) : list Z :=
   match e with
@@ -317,5 +358,16 @@ Definition m1c_entry : entry := fun inp =>
   | v :: capacity :: tmout :: ls =>
       let out := qrun_obs (dec_labs (length ls) ls) (init capacity tmout) in
       if existsb (Z.eqb (-7)) out then [-7] else out   (* a panic takes the process down: nothing else is compared *)
+  | _ => [-1]
+  end.
+
+(** entry: same input; is the schedule that the quiescent semantics executes in the class S0
+    (the hypothesis of the S0 theorems), and does it end in a quiescent state? *)
+Definition m1c_h_entry : entry := fun inp =>
+  match inp with
+  | v :: capacity :: tmout :: ls =>
+      let labs := dec_labs (length ls) ls in
+      let s0 := init capacity tmout in
+      [bool_z (run_ok (expand labs s0) s0); bool_z (quiescent (qrun labs s0))]
   | _ => [-1]
   end.
